@@ -35,7 +35,7 @@ variable (σ : St) (t : Nat)
   unfold mgrDone; simp only []; repeat' split
   all_goals first | rfl | exact sendDone_drops σ t _ | (simp only [recvDropTail_drops, sendDropTail_drops])
 @[simp] theorem freeEnd_drops (k : MK) : (freeEnd σ t k).drops = σ.drops := by
-  unfold freeEnd; split <;> simp only [mgrDone_drops]
+  unfold freeEnd; simp only [mgrDone_drops]
 @[simp] theorem freeTail_drops (k : MK) : (freeTail σ t k).drops = σ.drops := by
   unfold freeTail; repeat' split
   all_goals first | rfl | (simp only [mgrDone_drops])
